@@ -29,7 +29,7 @@ ASSUMPTIONS = ["the approved constants are those of vf/oracle/approved.py (copie
                "the hourly tree has no developer-only fields: for it only defaults, validity and round trip are decided",
                "BillingModel uses the legacy daily profile"]
 REQUIRED_REACH = {"ctor.locked_rejected": 300, "ctor.developer_accepted": 150, "ctor.invalid_rejected": 100,
-                  "ctor.nondeveloper_accepted": 40, "ctor.explicit_default_accepted": 100, "defaults.compared": 7,
+                  "ctor.nondeveloper_accepted": 40, "ctor.explicit_default_accepted": 100, "defaults.compared": 7, "defaults.compared_in_an_order": 60,
                   "validator.check_developer_mode.calls": 500, "stored.param_built": 20, "stored.fitted": 2, "stored.hourly_fit_with_settings_snapshot": 3, "stored.hourly_fit_used_a_supplemental_column": 2,
                   "hourly.valid_accepted": 50, "hourly.invalid_rejected": 70, "cross.judged": 30}
 EXHAUSTIVE = True
@@ -473,8 +473,51 @@ def fitted(spec, keys, hist):
     return 1
 
 
+def defaults_order(spec, keys, hist):
+    """Constructed without arguments, EACH family uses its approved constants - in whatever order the families, the profiles of one
+    class and customised / developer models are constructed in one process."""
+    import itertools
+    import opendsm.eemeter as em
+    ctors = {
+        "DailyModel()": (lambda: em.DailyModel(), A.DAILY),
+        "DailyModel(model='legacy')": (lambda: em.DailyModel(model="legacy"), A.LEGACY),
+        "DailyModel(settings={})": (lambda: em.DailyModel(settings={}), A.DAILY),
+        "DailyModel(model='legacy', settings={})": (lambda: em.DailyModel(model="legacy", settings={}), A.LEGACY),
+        "BillingModel()": (lambda: em.BillingModel(), A.BILLING),
+        "HourlyModel()": (lambda: em.HourlyModel(), A.HOURLY),
+    }
+    custom = [lambda: em.DailyModel(settings={"developer_mode": True, "silent_developer_mode": True, "alpha_final": 1.5, "segment_minimum_count": 9, "cvrmse_threshold": 0.7}),
+              lambda: em.DailyModel(model="legacy", settings={"developer_mode": True, "silent_developer_mode": True, "allow_smooth_model": True, "uncertainty_alpha": 0.3}),
+              lambda: em.BillingModel(settings={"season": {"march": "winter"}}),
+              lambda: em.HourlyModel(settings={"temperature_bin": {"bin_width": 8}, "cvrmse_threshold": 0.9, "seed": 0})]
+    names = list(ctors)
+    rng = rng_for(spec["seed"], ID, 9, spec["batch"])
+    perms = list(itertools.permutations(names[:5]))
+    rng.shuffle(perms)
+    n = 0
+    for perm in [tuple(names)] + [tuple(reversed(names))] + perms[: spec["n_orders"]]:
+        seq = list(perm)
+        for pos in sorted(rng.choice(len(seq) + 1, size=2, replace=False), reverse=True):
+            seq.insert(int(pos), "custom:%d" % int(rng.integers(0, len(custom))))
+        for step, name in enumerate(seq):
+            if name.startswith("custom:"):
+                custom[int(name.split(":")[1])]()
+                continue
+            fn, approved = ctors[name]
+            dump = norm(fn().settings.model_dump())
+            I.reach("defaults.compared_in_an_order")
+            n += 1
+            bad = {k: (dump.get(k), v) for k, v in norm(approved).items() if dump.get(k) != v}
+            if bad:
+                add("default-differs-from-approved-constant:order-dependent", "%s constructed after %s has %s (got, approved)" % (name, seq[:step], dict(list(bad.items())[:5])), order=seq[:step + 1])
+                break
+        keys.add("order|" + ">".join(seq))
+    return n
+
+
 def gen_cases(tier, seed):
     cases = [dict(kind="family", family=f) for f in ("current", "legacy", "billing", "hourly")]
+    cases += [dict(kind="defaults-order", batch=b, n_orders=10 if tier == "quick" else 40) for b in range(2 if tier == "quick" else 6)]
     fits = ["daily:current-nondev", "hourly:custom", "hourly:supp", "hourly:supp-explicit", "hourly:supp-object"] if tier == "quick" else \
         ["daily:current-nondev", "daily:legacy-dev", "daily:current-dev", "daily:billing-default", "hourly:custom", "hourly:solar-robust",
          "hourly:supp", "hourly:supp-explicit", "hourly:supp-object", "hourly:solar-supp-object"]
@@ -486,7 +529,9 @@ def run_case(spec):
     del VIOL[:]
     INSPECTED.clear()
     keys, hist = set(), {"constructions": {}}
-    if spec["kind"] == "family":
+    if spec["kind"] == "defaults-order":
+        n = defaults_order(spec, keys, hist)
+    elif spec["kind"] == "family":
         n = hourly_family(spec, keys, hist) if spec["family"] == "hourly" else daily_family(spec["family"], spec, keys, hist)
     else:
         n = fitted(spec, keys, hist)
